@@ -259,6 +259,13 @@ pub fn run(sc: &Scenario, stats: &mut Stats) {
             w.write_yield = cancel;
             w.write_yielded = false;
         }
+        if op.api == "rejoin" {
+            // the connection is split into its halves and joined again: nothing that was enqueued is touched
+            // (not an operation of the specification: no event)
+            let (r, w) = conn.split();
+            conn = Connection::join(r, w);
+            continue;
+        }
         if op.api == "chain" {
             // Connection::chain_call / Chain::append / Chain::send: every call of the chain is enqueued behind
             // whatever is enqueued already, `send` is one flush.  (While the chain borrows the connection the
@@ -399,11 +406,15 @@ fn rand_mode(r: &mut Rng, allow_bad: bool) -> Mode {
 }
 
 fn rand_api(r: &mut Rng) -> &'static str {
-    *r.pick(&["enqueue_call", "enqueue_call", "enqueue_call", "send_call", "send_reply", "send_error", "send_raw", "flush", "chain"])
+    *r.pick(&["enqueue_call", "enqueue_call", "enqueue_call", "send_call", "send_reply", "send_error", "send_raw", "flush", "chain", "rejoin"])
 }
 
 fn rand_len(r: &mut Rng) -> usize {
     let step = crate::buffer_step();
+    // now and then a message of 17..40 growth steps (several of them make a batch of tens of kilobytes)
+    if r.chance(1, 12) && crate::buffer_max() >= 1 << 20 {
+        return r.range(17 * step, 40 * step);
+    }
     match r.below(6) {
         0 => 0,
         1 => r.range(0, 2 * step),
@@ -462,6 +473,21 @@ pub fn gen_free_sweep(out: &mut Vec<Scenario>, fmax: usize, stride: usize) {
                     Op { api: api2.into(), mode: mode2, want: *s, i: 2, flags: 0 },
                     Op { api: "flush".into(), mode: Mode::Pad, want: 0, i: 0, flags: 0 },
                     Op { api: "send_reply".into(), mode: Mode::Typed, want: 40 + (f % 7), i: 3, flags: 1 },
+                    Op { api: "flush".into(), mode: Mode::Pad, want: 0, i: 0, flags: 0 },
+                ],
+            });
+        }
+        // calls that carry flags (the envelope appends them behind the method's own members): every length from
+        // just fitting to 16 bytes too long, so that the free space ends at every position inside the flag members
+        for d in 0..=16usize {
+            let flags = [1u8, 2, 4, 3, 7, 6][(f + d) % 6];
+            let api2 = if (f + d) % 2 == 0 { "send_call" } else { "enqueue_call" };
+            out.push(Scenario {
+                sid: format!("f{f}-flag{d}"),
+                fail_write_at: 0,
+                ops: vec![
+                    Op { api: "enqueue_call".into(), mode: Mode::Pad, want: l1, i: 1, flags: 0 },
+                    Op { api: api2.into(), mode: Mode::Pad, want: (f + d).max(40), i: 2, flags },
                     Op { api: "flush".into(), mode: Mode::Pad, want: 0, i: 0, flags: 0 },
                 ],
             });
